@@ -166,6 +166,16 @@ where
         self.remaining_content_start = lexeme.raw_range().end;
     }
 
+    /// Forwards a piece of a serialized token to the sink. A token may serialize to empty pieces
+    /// (e.g. a comment whose text has been set to an empty string), but a zero-length chunk is
+    /// reserved for signalling the end of the output, so empty pieces are skipped.
+    #[inline]
+    fn emit_token_bytes(output_sink: &mut O, bytes: &[u8]) {
+        if !bytes.is_empty() {
+            output_sink.handle_chunk(bytes);
+        }
+    }
+
     #[inline]
     fn token_produced(&mut self, mut token: Token<'_>) -> Result<(), RewritingError> {
         trace!(@output token);
@@ -173,7 +183,7 @@ where
         self.transform_controller.handle_token(&mut token)?;
 
         if self.emission_enabled {
-            token.into_bytes(&mut |c| self.output_sink.handle_chunk(c))?;
+            token.into_bytes(&mut |c| Self::emit_token_bytes(&mut self.output_sink, c))?;
         }
         Ok(())
     }
@@ -199,7 +209,7 @@ where
         self.transform_controller.handle_token(&mut token)?;
 
         if self.emission_enabled {
-            token.into_bytes(&mut |c| self.output_sink.handle_chunk(c))?;
+            token.into_bytes(&mut |c| Self::emit_token_bytes(&mut self.output_sink, c))?;
         }
         Ok(())
     }
